@@ -6,7 +6,6 @@ import DltypeModel.Generated.SrcHints
 namespace Dltype.Prov
 
 theorem hints_is_the_modelled_source : Gen.Src.srcHints = [
-  ("DLTypeAnnotation.from_hint", ["def(cls, hint, name, *, optional=False) @classmethod", "if hint is None:\n    warnings.warn(f'[{name}] is missing a DLType hint', category=UserWarning, stacklevel=3)\n    return (None,)", "n_expected_args = len(cls._fields)", "origin = get_origin(hint)", "args = get_args(hint)", "if origin is Union:\n    non_none_types = [t for t in args if t not in {type(None), None}]\n    if len(non_none_types) != 1:\n        msg = f'Only Optional tensor types are supported, not general Union types. Got: {hint}'\n        raise TypeError(msg)\n    return cls.from_hint(non_none_types[0], name, optional=True)", "if origin is tuple:\n    return _TupleHint(itertools.chain(*[cls.from_hint(inner_hint, name) for inner_hint in args]))", "if origin is not Annotated:\n    return (None,)", "if len(args) < n_expected_args or not isinstance(args[1], _tensor_type_base.TensorTypeBase):\n    return (None,)", "tensor_type, dltype_hint = (_tensor_type_base.unwrap_type_alias(args[0]), args[1])", "if not any((T in tensor_type.mro() for T in _dtypes.SUPPORTED_TENSOR_TYPES)):\n    msg = f'Invalid base type=<{tensor_type}> in DLType hint, expected a subtype of {_dtypes.SUPPORTED_TENSOR_TYPES}'\n    raise TypeError(msg)", "if dltype_hint.optional != optional:\n    dltype_hint = copy.copy(dltype_hint)\n    dltype_hint.optional = optional", "return (cls(tensor_type_hint=tensor_type, dltype_annotation=dltype_hint),)"]),
   ("_resolve_types", ["def(annotations) @lru_cache()", "if annotations is None or all((ann is None for ann in annotations)):\n    return None", "return tuple((ann.dltype_annotation if ann is not None else None for ann in annotations))"]),
   ("_resolve_value", ["def(value, type_hint)", "return value if isinstance(type_hint, _TupleHint) else (value,)"]),
   ("_maybe_get_type_hints", ["def(existing_hints, func)", "if existing_hints is not None:\n    return existing_hints", "try:\n    return {name: DLTypeAnnotation.from_hint(hint, name) for name, hint in get_type_hints(func, include_extras=True).items()}\nexcept NameError:\n    return None"]),
